@@ -24,7 +24,7 @@ LEVEL = "model_checking"
 RULE = (
     "sequential lattice: n in 1..7(|10) x chunksize {1,2,3,n-1,n,n+1,None} x source {data frame, FITS, HDF5, "
     "Parquet with row groups {1,2,n}, random generator} x columns {-,w,z,w+z} x dtype {f8,f4|i8,i4} x degrees x "
-    "patch mode {centres, id column | patch_num} x progress x buffersize {-1,0,1,2,100}; parallel: W in {2,3} "
+    "patch mode {centres, id column (stored as i8 and, for n in {3,6}, as u1/u2/i2/u4/i4/u8 together with integer weights), centres + an id column of another partition (must be ignored) | patch_num} x progress x buffersize {-1,0,1,2,100}; parallel: W in {2,3} "
     "workers x n x chunksize, every delivery order of the pool tasks of every chunk (all interleavings of the "
     "virtual pool/queue/writer process under the partial-order reduction of DESIGN.md E3b; on eight small instances also every completion order of the patch-loading pool). Oracle: per patch "
     "the multiset of stored records equals the input records assigned by an independent nearest-centre rule / "
